@@ -85,6 +85,10 @@ def authenticateWith (k : AuthKind) (e : AuthEnv) (claimed : String) (peer : Pee
   | .tls => authenticate e claimed peer i
   | .dummy => dummyAuthenticate claimed peer
 
+/-- `extractCertificate`: the certificate a connection is authenticated with is the FIRST of the peer's certificates — the
+    only one whose private key the TLS handshake proved possession of; whatever else the peer sends along is unproven -/
+def peerCertificate {α : Type} (chain : List α) : Option α := chain.head?
+
 /-- `grpcConnectionManager.authenticate` (inbound and outbound stream set-up): no claimed DID = no authentication;
     a failed authentication is an error and yields the zero peer (the stream is refused), never a half-authenticated one -/
 def cmAuthenticate (k : AuthKind) (e : AuthEnv) (claimed : String) (peer : Peer) (i : AuthIn) : Peer × Bool :=
